@@ -114,6 +114,35 @@ class C20(Prop):
                 sub = reqs[oi::(40 if how == "short7" else 9) if tier != "thorough" else 6]
                 jobs.append({"file": outp, "open": how, "requests": sub})
                 meta.append((f"{k}{how}", bed, length, items))
+        # files with 300 small chromosomes (default options: the index gets an upper level spanning chromosome boundaries);
+        # requests on sub-ranges of chromosomes in the middle of the file
+        import bbgen
+        for bed in (False, True):
+            names, sizes_m, data_m = bbgen.many_contigs(300, 3)
+            tag = "mb" if bed else "mw"
+            sz = os.path.join(d, f"{tag}.sizes")
+            open(sz, "w").write("".join(f"{n}\t{sizes_m[n]}\n" for n in names))
+            src = os.path.join(d, f"{tag}." + ("bed" if bed else "bedGraph"))
+            with open(src, "w") as f:
+                for n in names:
+                    for (a, b, v) in data_m[n]:
+                        f.write(f"{n}\t{a}\t{b}" + ("" if bed else f"\t{v}") + "\n")
+            outp = os.path.join(d, f"{tag}." + ("bb" if bed else "bw"))
+            subprocess.run([repo_bin("bedtobigbed" if bed else "bedgraphtobigwig"), src, sz, outp], capture_output=True, text=True)
+            if not os.path.exists(outp):
+                continue
+            for ci in (0, 7, 130, 255, 256, 299):
+                n = names[ci]
+                items = [(a, b) for (a, b, v) in data_m[n]] if bed else [(a, b, v) for (a, b, v) in data_m[n]]
+                lo = data_m[n][0][0]
+                reqs = []
+                for (s_, e_) in ((lo - 3, lo + 12), (lo, lo + 40), (data_m[n][1][0] - 2, data_m[n][2][1] + 3), (0, 30)):
+                    s_ = max(s_, -4)
+                    reqs.append(dict(chrom=n, start=s_, end=e_, bins=None, missing=0, oob="nan"))
+                    for nb in (1, 3, e_ - s_):
+                        reqs.append(dict(chrom=n, start=s_, end=e_, bins=nb, summary=["mean", "min", "max"][nb % 3], exact=True, missing=-1, oob=-5))
+                jobs.append({"file": outp, "requests": reqs})
+                meta.append((f"{tag}{ci}", bed, sizes_m[n], items))
         jf, rf = os.path.join(d, "jobs.json"), os.path.join(d, "results.json")
         json.dump(jobs, open(jf, "w"))
         p = subprocess.run(["python3-vt", os.path.join(os.path.dirname(os.path.abspath(__file__)), "..", "py_values_driver.py"), PYMOD, jf, rf],
